@@ -706,6 +706,11 @@ func (e *Engine) claimsFor(prop string, unproved []string) []string {
 			}
 			add(fmt.Sprintf("%s/at:%s(%s).%s#", name, at.Anchor.Kind, at.Anchor.Pattern, lbl))
 		}
+		if con.HasAssigns && con.Trusted == "" {
+			// `assigns` is a claim about every heap region: a frame obligation for a region the function did
+			// not touch before is still part of it
+			add(name + "/frame:")
+		}
 		if con.Opts["lockcheck"] != "" {
 			for _, k := range []string{"lock:block:", "lock:held:", "lock:nodouble:", "handoff:"} {
 				add(name + "/" + k)
